@@ -465,7 +465,7 @@ func TestVerifC28(t *testing.T) {
 		}
 	})
 
-	n := r.N(250, 30000)
+	n := r.N(250, 10000)
 	r.Cases("paths", n, func(i int, id string, rng *vk.Rand) {
 		typ := []string{"set", "set", "mutex", "bool", "time", "time", "int", "int"}[rng.Intn(8)]
 		track := rng.Bool()
